@@ -38,6 +38,7 @@ def main() -> int:
         "solver_s": tot["solver_s"],
         "if_conversions": tot["merges"],
         "interpreter_validation": {"n": tot["witness"], "agree": tot["witness_agree"]},
+        "cross_solver": {"solver": "cvc5 1.4 (wheel)", "n": tot.get("xsolver_n", 0), "agree": tot.get("xsolver_agree", 0), "disagree": tot.get("xsolver_disagree", 0), "cvc5_unknown": tot.get("xsolver_cvc5_unknown", 0), "errors": tot.get("xsolver_errors", 0)},
         "functions_encoded": repo_files(RUNTIME_FILES),
         "bounds": "families F_shape (+seeded random tail) and the quick F_grid slice; widths 1..64; all in-range values of every leaf; BV width 192 with overflow guard; <=600 paths per message",
         "outside_claim": "schemas outside the families; CPython int/bytearray are modelled (guarded BV-192, SymBytes); dataclasses/enum run for real",
